@@ -186,6 +186,15 @@ impl RawPixels {
 }
 
 impl Pixels {
+    /// Number of pixels.
+    pub(crate) fn len(&self) -> usize {
+        match self {
+            Pixels::Rgba(v) => v.len(),
+            Pixels::Grayscale(v) => v.len(),
+            Pixels::Indexed { data, .. } => data.len(),
+        }
+    }
+
     // Returns a Borrowed Cow if the Pixels struct already contains Rgba pixels.
     // Otherwise clones them to create an Owned Cow.
     pub(crate) fn clone_as_image_rgba(&self) -> Cow<Vec<image::Rgba<u8>>> {
